@@ -1,7 +1,9 @@
 package scen
 
 import (
+	"bytes"
 	"fmt"
+	"github.com/taurusgroup/multi-party-sig/verif/mut"
 
 	"github.com/fxamacker/cbor/v2"
 	"github.com/taurusgroup/multi-party-sig/pkg/ecdsa"
@@ -12,13 +14,64 @@ import (
 
 // Persist serialises a result object with the encoder the library documents for its type.
 func Persist(v interface{}) ([]byte, error) {
+	var b []byte
+	var err error
 	switch c := v.(type) {
 	case *cmp.Config:
-		return c.MarshalBinary()
+		b, err = c.MarshalBinary()
 	case *frost.Config, *frost.TaprootConfig, *doerner.ConfigReceiver, *doerner.ConfigSender, *ecdsa.PreSignature, *ecdsa.Signature, ecdsa.Signature:
-		return cbor.Marshal(c)
+		b, err = cbor.Marshal(c)
+	default:
+		return nil, fmt.Errorf("persist: unsupported type %T", v)
 	}
-	return nil, fmt.Errorf("persist: unsupported type %T", v)
+	if err != nil {
+		return nil, err
+	}
+	// the sorted image must restore to the same object (the structure-aware decoder may, very
+	// rarely, mistake random bytes for a nested encoding); otherwise keep what the library wrote
+	if cb := canonicalImage(b); !bytes.Equal(cb, b) {
+		if r, rerr := Restore(v, cb); rerr == nil {
+			p := protoOfResult(v)
+			if ResultDigest(p, r) == ResultDigest(p, v) {
+				return cb, nil
+			}
+		}
+	}
+	return b, nil
+}
+
+func protoOfResult(v interface{}) Proto {
+	switch v.(type) {
+	case *frost.Config:
+		return FROST
+	case *frost.TaprootConfig:
+		return FROSTTaproot
+	case *doerner.ConfigReceiver, *doerner.ConfigSender:
+		return Doerner
+	}
+	return CMP
+}
+
+// canonicalImage re-encodes a stored image with its map keys sorted. The library writes Go maps (the
+// frost share tables, a presignature's point maps) in Go's random iteration order, so the same object
+// has many byte images; a fault "at bit k" must hit the same field in every execution of a case, so
+// the simulated disk always holds one particular of those images (a sorted one, which the library
+// could have written itself).
+func canonicalImage(b []byte) (out []byte) {
+	out = b
+	t, err := mut.Decode(b)
+	if err != nil {
+		return b
+	}
+	defer func() {
+		if recover() != nil {
+			out = b
+		}
+	}()
+	if enc := mut.Encode(t); len(enc) == len(b) {
+		return enc
+	}
+	return b
 }
 
 // Restore deserialises bytes into a fresh object of the same type as like, using the library's
